@@ -123,6 +123,11 @@ func (e *Engine) sweepOne(p *packages.Package, key string) (res *UnitResult) {
 		}
 	}()
 	res = e.verifyFunc1(p, ct)
+	if res.WritesAST {
+		res.Outside = "writes to a field of a go/ast node (the sweep assumes the syntax tree is read-only)"
+		res.Obls = nil
+		return res
+	}
 	// keep only the safety obligations
 	var keep []*Obl
 	for _, o := range res.Obls {
